@@ -14,6 +14,9 @@ A_CompileError = asn1tools.CompileError
 A_ParseError = asn1tools.ParseError
 
 
+FLOOR_TYPES = ('Dv', 'Dw', 'Use1', 'CO')
+
+
 @st.composite
 def spec_cases(draw, prof, vcfg, max_types=3, max_values=4, type_filter=None):
     """(spec, [(modname, typename, [values])])"""
@@ -25,6 +28,10 @@ def spec_cases(draw, prof, vcfg, max_types=3, max_values=4, type_filter=None):
         return (spec, [])
     k = min(len(tops), max_types)
     idx = draw(st.lists(st.integers(0, len(tops) - 1), min_size=1, max_size=k, unique=True))
+    # the stratification floors of the generator (containers that share member names and referenced types, the user
+    # of an alias chain, the COMPONENTS OF type) are there to be exercised: always take them along
+    floor = [i for i, t in enumerate(tops) if t[1] in FLOOR_TYPES and i not in idx]
+    idx = idx + floor[:3]
     out = []
     vg = values.VG(draw, spec, vcfg)
     for i in idx:
